@@ -53,12 +53,19 @@ class Contract:
         self.nsamples = None
         self.max_paths = 4000
         self.result_fn = None
+        self.ghosts = OrderedDict()
+        self.fragment = None
 
     # -- builder API ----------------------------------------------------------
     def param(self, name, sort, default=None):
         self.params[name] = sort
         if default is not None:
             self.defaults[name] = default
+        return self
+
+    def ghost(self, name, sort):
+        """Universally quantified logical variable of the contract (not an argument)."""
+        self.ghosts[name] = sort
         return self
 
     def req(self, name, fn):
@@ -182,6 +189,17 @@ def snap(v, memo):
 def contract(key, props=(), inline=False):
     c = Contract(key, props, inline)
     REGISTRY[key] = c
+    return c
+
+
+def fragment(key, name, select, props=(), mode="expr"):
+    """Contract on a fragment (expression or statement list) of a real function,
+    selected structurally from the working-tree AST at check time."""
+    c = Contract(key, props, inline=True)
+    c.fragment = dict(select=select, mode=mode, name=name)
+    c.short = c.qualname + "#" + name
+    c.key = key + "#" + name
+    REGISTRY[c.key] = c
     return c
 
 
